@@ -278,6 +278,8 @@ TRUSTED_BASE = [
     "asyncio.run(e) and ThreadPoolExecutor.submit(f).result() hand on the value or the exception of what they run, that statements containing "
     "no call of the core / an API method and no return / raise (the running-loop probe) do not affect what is handed back, and that the core "
     "is a FUNCTION of the four request objects (calling context, event loop and thread are not arguments: observed by C14's flavour runs)",
+    "guardDecideM only (the translated branch is tied node by node for any memo — rel_range_model — and, run from the empty memo at every rel node, "
+    "for whole condition trees: eval_condition_rel_tree, C04_eval_condition_closed)",
 ]
 
 
